@@ -31,12 +31,19 @@ Fail(name, ok) == IF ok THEN {} ELSE {name}
 EverOf(s) == {[name |-> p.name, idx |-> p.idx, retry |-> p.retry] : p \in Range(s.ever)}
 SuccOf(s) == Range(s.succ)
 NoKube(s) == Range(s.nokube)
+\* latest finish time among the tasks the controller can know of: recorded in a status that reached the API, or still existing
+MaxFin(s, li) == LET K == {x.name : x \in li} \cup Names(s.pods)
+                     F == {q.fin : q \in {y \in Range(s.ever) : y.name \in K}} \cup {r.fin : r \in Range(s.job.refs)} \cup {0}
+                 IN CHOOSE m \in F : \A x \in F : x <= m
 
 \* ---- witnesses of known histories, evaluated at SyncBegin on the state before the pass ----
-\* Pod cache behind Job cache: a task named in the cached status exists (owned) in the API but not in the Pod cache
-WSkew(s) == \E r \in Range(s.jcache.refs) : (\E p \in Mine(s.pods) : p.name = r.name) /\ ~\E q \in Range(s.pcache) : q.name = r.name
-\* Job cache behind the API: the pass works on a stale Job object whose status lacks tasks the API status already lists
-WStale(s) == s.jcache.ex /\ s.job.ex /\ \E r \in Range(s.job.refs) : ~\E x \in Range(s.jcache.refs) : x.name = r.name
+\* Pod cache behind: an owned Pod exists in the API but is absent from the Pod cache the pass lists its tasks from (or the cache
+\* still holds an earlier object of the same name)
+WSkew(s) == \E p \in Mine(s.pods) : ~\E q \in Range(s.pcache) : q.name = p.name /\ q.uid = p.uid
+\* Job cache behind the API: the pass works on a cached Job whose recorded task state (which tasks exist, which have
+\* finished, with what result) is older than what the controller has already written to the API
+RefKey(j) == {<<r.name, r.fin # 0, r.res>> : r \in Range(j.refs)}
+WStale(s) == s.jcache.ex /\ s.job.ex /\ RefKey(s.jcache) # RefKey(s.job)
 
 StateFails(e, sr) ==
     LET s == e.st  c == e.cfg  final == e.ev \in {"Final", "DrainFailed"} IN
@@ -50,7 +57,7 @@ StateFails(e, sr) ==
     \cup Fail("C20_Converges", e.ev # "DrainFailed")
     \cup (IF ~final THEN {} ELSE
              Fail("C09_Listed", C09_Listed(s.job, s.pods))
-        \cup Fail("C09_ForeignEnds", C09_ForeignEnds(c, s.job))
+        \cup Fail("C09_ForeignEnds", C09_ForeignEnds(s.job, s.pods))
         \cup Fail("C10_Reaches", C10_Reaches(c, s.job, s.pods, NoKube(s)))
         \cup Fail("C10_Progress", C10_Progress(c, s.job, s.pods))
         \cup Fail("C12_KillCompletes", C12_KillCompletes(c, s.job, s.pods, s.now, NoKube(s)))
@@ -67,10 +74,10 @@ StepFails(e, p, ps, ed, ud, ta, li, da) ==
     \cup Fail("C09_Keep", C09_KeepStep(p.job, s.job))
     \cup Fail("C10_NoLiveAtFinish", C10_NoLiveAtFinishStep(p.job, s.job, s.pods))
     \cup Fail("C11_Monotone", C11_MonotoneStep(p.job, s.job, ed))
-    \cup Fail("C12_DeleteJustified", C12_DeleteJustifiedStep(c, dels, e.force, p.pods, s.pods, ps, s.now, EverOf(s), SuccOf(s)))
-    \cup Fail("C12_ForceGate", C12_ForceGateStep(c, dels, e.force, p.pods, s.now))
+    \cup Fail("C12_DeleteJustified", C12_DeleteJustifiedStep(c, dels, p.pods, s.pods, ps, s.now, EverOf(s), SuccOf(s)))
+    \cup Fail("C12_ForceGate", C12_ForceGateStep(c, Range(e.fdels), p.pods, ps, s.now))
     \cup Fail("C13_Order", C13_OrderStep(p.job, s.job, s.pods))
-    \cup Fail("C13_TTLNotEarly", C13_TTLNotEarlyStep(c, p.job, s.job, ta, ud, da))
+    \cup Fail("C13_TTLNotEarly", C13_TTLNotEarlyStep(c, p.job, s.job, ta, ud, da, MaxFin(p, li)))
 
 Init == l = 1 /\ pass = NoPass /\ edited = FALSE /\ udel = FALSE /\ ttlAt = 0 /\ taint = "" /\ admTruth = FALSE /\ listed = {} /\ succRec = {} /\ doneAt = 0 /\ viol = {}
 
@@ -98,10 +105,15 @@ Next ==
            da == IF reset THEN 0 ELSE IF doneAt = 0 /\ over THEN s.now ELSE doneAt
            fs == StateFails(e, sr) \cup (IF reset \/ l = 1 THEN {} ELSE StepFails(e, p, ps, ed, ud, ta, listed, da))
            \* primary manifestations of the known cache-skew findings taint the rest of the run
+           inpass == e.ev \in {"SyncBegin", "Step"}
+           \* the pass acted: it issued Pod deletes or a mutating call that took effect
+           wrote == inpass /\ (Len(e.dels) > 0 \/ Len(e.fdels) > 0 \/ (e.op # "" /\ e.err \in {"", "applied-but-error"}))
+           \* known cache-skew findings: a pass that began on a cache missing what the API already had went on to act
+           \* (or to violate a formula); what it did, and what later passes make of it, is attributed to that finding
            tn == IF reset THEN ""
                  ELSE IF taint # "" THEN taint
-                 ELSE IF "C08_Order" \in fs /\ ps.stale THEN "stale-recreate"
-                 ELSE IF fs \cap {"C09_NotLost", "C08_OneLive", "C08_Order"} # {} /\ ps.skew THEN "podcache-behind"
+                 ELSE IF inpass /\ ps.stale /\ (fs # {} \/ wrote) THEN "jobcache-stale"
+                 ELSE IF inpass /\ ps.skew /\ (fs # {} \/ wrote) THEN "podcache-behind"
                  ELSE ""
        IN /\ pass' = ps /\ edited' = ed /\ udel' = ud /\ ttlAt' = ta /\ taint' = tn /\ admTruth' = at
           /\ listed' = li /\ succRec' = sr /\ doneAt' = da
